@@ -11,6 +11,8 @@ from .model import Model, primary
 SEEDS = {
     "empty": None,
     "mini": seeds.build_mini,
+    "mini+autonames": lambda f: (seeds.build_mini(f), f.blocks["blk"].create_data_array("newmt-positions", "t", data=[1.0]),
+                                 f.blocks["blk"].create_data_array("newmt-extents", "t", data=[2.0]), None)[-1],
     "rich": seeds.build_rich,
     "richnf": lambda f: seeds.build_rich(f, frames=False),
     "block": lambda f: (seeds.build_block(f, "blk"), None)[1],
